@@ -286,6 +286,9 @@ func (u Universe) Filter(r *Rand, sel int) JFilter {
 		if u.Extreme > 0 && r.Chance(u.Extreme) {
 			ks = append(ks, Pick(r, OddKinds))
 		}
+		if len(ks) > 1 && r.Chance(15) { // a repeated member, not adjacent to its first occurrence
+			ks = append(ks, ks[0])
+		}
 		f.Kinds = &ks
 	}
 	if r.Chance(sel) {
